@@ -122,7 +122,7 @@ fn enum_seqs(alpha: &[u8], maxlen: usize, minlen: usize) -> Vec<Vec<u8>> {
 }
 
 pub fn gen(tier: &str, rng: &mut Rng, out: &mut Vec<String>) {
-    let n = if tier == "thorough" { 300_000 } else { 5_000 };
+    let n = if tier == "thorough" { 200_000 } else { 5_000 };
     for i in 0..n {
         gen_case(rng, out, i);
     }
